@@ -81,7 +81,10 @@ def system_part(v, tier):
         f_mc = ex.submit(vlib.run_tlc, "MC_PdfSystem", "PdfSystem_mcq.cfg" if q else "PdfSystem_mc.cfg", PID, "sys_mc", workers=4, timeout=3000, heap="8g")
         f_gen = ex.submit(vlib.run_tlc, "MC_PdfSystem", "PdfSystem_q6_gen.cfg" if q else "PdfSystem_q_gen.cfg", PID, "sys_gen", workers=4, timeout=3000, heap="8g", coverage=False)
         f_w = {d: ex.submit(vlib.run_tlc, "MC_PdfSystem", "PdfSystem_w_%s.cfg" % d, PID, "sys_w_" + d, workers=2, timeout=900, expect_violation=True, coverage=False) for d in SYS_DEVS}
+        f_gen7 = ex.submit(vlib.run_tlc, "MC_PdfSystem", "PdfSystem_q7_gen.cfg", PID, "sys_gen7", workers=2, timeout=3000, heap="8g", coverage=False) if q else None
         mc, gen = f_mc.result(), f_gen.result()
+        if f_gen7:          # one value, uncached: long enough for a second session that saves again
+            gen["cases"] += f_gen7.result()["cases"]
         wit = {d: f.result()["violation"] for d, f in f_w.items()}
     if mc["violation"]:
         v.model_violation("PdfSystem:%s" % mc["violation"], mc)
